@@ -10,6 +10,23 @@ TRAILING = ['', ',', ', --- [unit] comment', ',comment without dashes', ', a com
             ', -- Plant Lifetime, 99', ',  ']
 
 
+LIST_FORM = ('Gradients', 'Thicknesses')
+
+
+def list_form(case):
+    """The same parameter set with the per-segment gradients and thicknesses written as the list-valued parameters
+    'Gradients, g1, g2, ...' / 'Thicknesses, t1, t2, ...' (both spellings are read by Reservoir.read_parameters)."""
+    n = gen.cget(case, 'Number of Segments') or 1
+    gs = [gen.cget(case, f'Gradient {k}') for k in range(1, n + 1)]
+    ts = [gen.cget(case, f'Thickness {k}') for k in range(1, n)]
+    if n < 2 or any(x is None for x in gs + ts):
+        return None
+    out = [kv for kv in case if not (kv[0].startswith('Gradient ') or kv[0].startswith('Thickness '))]
+    out.append(['Gradients', ', '.join(gen.fmt(g) for g in gs)])
+    out.append(['Thicknesses', ', '.join(gen.fmt(t) for t in ts)])
+    return out
+
+
 def render_variant(rng, case, raw, style):
     """One decorated / permuted rendering of the parameter set `case` (list of [name, value]) + raw directive lines."""
     items = [(k, gen.fmt(v)) for k, v in case]
@@ -34,12 +51,26 @@ def render_variant(rng, case, raw, style):
     lines = []
     for k, v in items:
         # --- inserted duplicates: an earlier occurrence (valid-but-different or invalid) must not matter
-        if style.get('duplicates') and not k.startswith('AddOn ') and rng.random() < 0.15:
+        if style.get('duplicates') and not k.startswith('AddOn ') and rng.random() < (0.15 if k not in LIST_FORM else 0.9):
             r = rng.random()
-            if r < 0.4:
+            if k in LIST_FORM:
+                # list-valued parameter: an earlier occurrence with other (valid) values
+                try:
+                    other = ', '.join(gen.fmt(round(float(x) * rng.choice([0.5, 0.8, 1.25]), 4)) for x in v.split(','))
+                except ValueError:
+                    other = v
+                lines.append(f'{k}, {other}')
+            elif r < 0.3:
                 lines.append(f'{k}, not-a-number')
-            elif r < 0.7:
+            elif r < 0.5:
                 lines.append(f'{k}, -123456789')
+            elif r < 0.8:
+                # valid-but-different: a nearby number (an earlier occurrence must not matter whatever it says)
+                try:
+                    f = float(v)
+                    lines.append(f'{k}, {gen.fmt(round(f * rng.choice([0.97, 1.02]), 6)) if f != int(f) else gen.fmt(int(f) + rng.choice([1, 2]))}')
+                except ValueError:
+                    lines.append(f'{k}, {v}')
             else:
                 lines.append(f'{k}, {v}')
         name, val = k, v
@@ -49,6 +80,9 @@ def render_variant(rng, case, raw, style):
         else:
             val = ' ' + val
         tail = rng.choice(TRAILING) if style.get('trailing') else ''
+        if k in LIST_FORM and tail.strip(', \t') and '--' not in tail:
+            # for a list-valued parameter text after a further comma is a list entry by design; only '--' starts a comment
+            tail = ', --- [unit] comment'
         lines.append(f'{name},{val}{tail}')
         if style.get('comments') and rng.random() < 0.25:
             lines.append(rng.choice(COMMENT_LINES))
@@ -95,6 +129,12 @@ def run(ctx):
     for i in range(ctx.pick(70, 900)):
         cell = cells[i % len(cells)]
         bases.append((gen.synth_case(rng, cell), [], {'cell': list(cell)}, 300))
+    # list-valued spellings of the segment profile (directed: the grid writes 'Gradient k' scalars)
+    for i in range(ctx.pick(10, 80)):
+        cell = cells[(i * 7) % len(cells)]
+        lf = list_form(gen.synth_case(rng, cell, nseg=rng.choice([2, 3, 4])))
+        if lf is not None:
+            bases.append((lf, [], {'cell': list(cell), 'list_form': True}, 300))
     slow = gen.grid_cells(res_models=(1, 2))
     rng.shuffle(slow)
     for i in range(ctx.pick(4, 60)):
